@@ -18,7 +18,7 @@ func init() {
 			"(1) request audit success precedes backend dispatch in both request handlers; " +
 			"(2) in Core.handleCancelableRequest every return that can carry a response after the handlers ran crosses the success edge of AuditBroker.LogResponse, whose failure edge returns a nil response, and the Response put into that audit's LogInput is the response returned across the success edge (same origins; the only other origin allowed is the decoded body on the unwrap path; never absent); " +
 			"(3) AuditBroker.LogRequest/LogResponse report success only if some device accepted the entry (the local success flag or counter — initialised false/0, only set or incremented, tested afterwards — is set only on the device call's nil-error edge, and every normal return crosses it being non-zero, len(backends) being 0, or the failure error being appended) or no device is configured, a panic in a device is recovered into an error, and the per-device header transformation replaces the raw headers before every device call; " +
-			"(4) in non-raw mode every field of the audit entry structs is read out of the hashed copies returned by HashAuth/HashRequest/HashResponse, never from the LogInput directly; " +
+			"(4) in non-raw mode every field of the audit entry structs is read out of the hashed copies returned by HashAuth/HashRequest/HashResponse, never from the LogInput directly, and the one pass-through transformer accepted in such a chain (parseVaultTokenFromJWT for the wrap-info token) is applied only to values that are themselves read out of the sanitiser result; " +
 			"(5) the sanitisers overwrite every sensitive field (client token, accessors when configured, request/response data, nested auth, wrap info token/accessors) of a *copy* with the salted-HMAC function's result and return the copy; the map handed to hashMap is the very value the overwrite stores (resolved flow-sensitively at the call, so hashing the input's live map through the not-yet-overwritten copy field is refused); the walker writes back only the callback's result and skips a leaf only for map keys, non-strings, RFC3339 times and a leaf whose *own* current key is in the exemption list; " +
 			"(5b) hashMap hands HashStructure its own map, callback and exemption-list parameters unchanged; the walker's container and index stacks (cs/csKey) are pushed by Map/Slice/MapElem/SliceElem, popped by Exit on the matching location on every path, and written nowhere else; nothing is written into (or handed on from) the copy after hashMap hashed it; " +
 			"(4b) the formatter sanitises request data with LogInput.NonHMACReqDataKeys and response data with LogInput.NonHMACRespDataKeys, and (2b) each of these lists is nil or read from the cache of the mount entry matched for the request path under the very key under which MountEntry.SyncCache publishes Config.AuditNonHMACRequestKeys / AuditNonHMACResponseKeys; (2d) wherever a live mount entry's Config or one of its two exemption lists is assigned, SyncCache on that entry follows on every path, and where the assignment registers a deferred restore (tune rollback) the entry's SyncCache is itself deferred and registered before that restore, so the cache is filled from what remains after a rollback; (2c) no field, auth block or data map of a logical.Response is written after the response audit in Core.handleCancelableRequest; " +
@@ -405,13 +405,46 @@ func runC11(c *eng.Ctx, thorough bool) {
 				okAll := len(roots) > 0
 				moved := true // every offending root is the result of some other function: the block may have been extracted
 				var rs []string
-				good := func(s string) bool {
-					return matches(want, s) || key == "audit.AuditResponseWrapInfo.Token" && matches(`^audit\.parseVaultTokenFromJWT\(\)`, s)
-				}
+				good := func(s string) bool { return matches(want, s) }
 				for _, r := range roots {
 					s := eng.Expr(r)
 					if good(s) {
 						rs = append(rs, s)
+						continue
+					}
+					// tabled pass-through transformer (the wrapping token extracted from a JWT): accepted only if
+					// every argument it is applied to is itself read out of the sanitiser result — applied to the
+					// raw input it would hand the plaintext token on
+					if pt := c11PassThrough(r); pt != nil && key == "audit.AuditResponseWrapInfo.Token" {
+						argsOK := len(pt.Call.Args) > 0
+						var ar []string
+						for _, a := range pt.Call.Args {
+							rr := eng.Roots(a, fe)
+							if len(rr) == 0 {
+								argsOK = false
+							}
+							for _, x := range rr {
+								ar = append(ar, eng.Expr(x))
+								if good(eng.Expr(x)) {
+									continue
+								}
+								// … or out of a helper of this package that hands the sanitiser result on
+								fw, ok := c11ForwardedRoots(f, x)
+								for _, y := range fw {
+									if !good(eng.Expr(y)) {
+										ok = false
+									}
+								}
+								if !ok {
+									argsOK = false
+								}
+							}
+						}
+						rs = append(rs, s+" of "+fmt.Sprint(ar))
+						if argsOK {
+							continue
+						}
+						okAll, moved = false, false
 						continue
 					}
 					// result of a helper of this package that hands on the sanitiser's result?
@@ -499,6 +532,27 @@ func c11PhiLeaves(v ssa.Value, out map[ssa.Value]bool) {
 		out[v] = true
 	}
 	walk(v)
+}
+
+// c11PassThrough: r is (a dereference of) the result of a tabled transformer whose output is as
+// sensitive as its input: audit.parseVaultTokenFromJWT.
+func c11PassThrough(r ssa.Value) *ssa.Call {
+	for d := 0; d < 3; d++ {
+		switch x := r.(type) {
+		case *ssa.Call:
+			if eng.CalleeName(&x.Call) == "audit.parseVaultTokenFromJWT" {
+				return x
+			}
+			return nil
+		case *ssa.UnOp:
+			r = x.X
+		case *ssa.Extract:
+			r = x.Tuple
+		default:
+			return nil
+		}
+	}
+	return nil
 }
 
 func matches(pat, s string) bool {
